@@ -394,7 +394,7 @@ same order, equal parameter and result names, equal variadic flags – and every
 registered in its universe under the very name under which its counterpart is registered in the other.  So
 "registered under the same name" is a bisimulation: the two universes are isomorphic on their common part.
 (`Consistent`: go/types prints nodes of different shape differently.) -/
-theorem split_and_order_irrelevant_v2 (w : World) (hng : NoGenerics w.facts) (hwf : WellFormed w.facts w.v2) (hbt : BtKinds w.bt)
+theorem split_and_order_irrelevant_v2 (w : World) (hwf : WellFormed w.facts w.v2) (hbt : BtKinds w.bt)
     (hc : Consistent w.facts w.v2) (req1 req2 : List Str) (ms1 ms2 : List (List Str)) (a b st1 st2 : LState)
     (h1a : newUniverseV2 w req1 = some a) (h1 : loadsV2 w a ms1 = some st1)
     (h2a : newUniverseV2 w req2 = some b) (h2 : loadsV2 w b ms2 = some st2)
@@ -402,11 +402,11 @@ theorem split_and_order_irrelevant_v2 (w : World) (hng : NoGenerics w.facts) (hw
     (l1 : AL.lookup n st1.u.types = some o1) (l2 : AL.lookup n st2.u.types = some o2)
     (hob1 : st1.u.objs[o1]? = some ob1) (hob2 : st2.u.objs[o2]? = some ob2) (s1 : ob1.src = some g1) (s2 : ob2.src = some g2) :
     ObjEq st1.u st2.u ob1 ob2 :=
-  same_name_same_content hc (loadsV2_faithful w hng hwf hbt req1 ms1 a st1 h1a h1) (loadsV2_faithful w hng hwf hbt req2 ms2 b st2 h2a h2)
+  same_name_same_content hc (loadsV2_faithful w hwf hbt req1 ms1 a st1 h1a h1) (loadsV2_faithful w hwf hbt req2 ms2 b st2 h2a h2)
     n o1 o2 ob1 ob2 g1 g2 l1 l2 hob1 hob2 s1 s2
 
 /-- **split_and_order_irrelevant_v1**: the same for `FindTypes` followed by any sequence of `AddDirTo` -/
-theorem split_and_order_irrelevant_v1 (w : World) (hng : NoGenerics w.facts) (hwf : WellFormed w.facts w.v2) (hbt : BtKinds w.bt)
+theorem split_and_order_irrelevant_v1 (w : World) (hwf : WellFormed w.facts w.v2) (hbt : BtKinds w.bt)
     (hc : Consistent w.facts w.v2) (req1 req2 : List Str) (ps1 ps2 : List Str) (a b st1 st2 : LState)
     (h1a : findTypesV1 w req1 = some a) (h1 : addDirsV1 w a ps1 = some st1)
     (h2a : findTypesV1 w req2 = some b) (h2 : addDirsV1 w b ps2 = some st2)
@@ -414,7 +414,7 @@ theorem split_and_order_irrelevant_v1 (w : World) (hng : NoGenerics w.facts) (hw
     (l1 : AL.lookup n st1.u.types = some o1) (l2 : AL.lookup n st2.u.types = some o2)
     (hob1 : st1.u.objs[o1]? = some ob1) (hob2 : st2.u.objs[o2]? = some ob2) (s1 : ob1.src = some g1) (s2 : ob2.src = some g2) :
     ObjEq st1.u st2.u ob1 ob2 :=
-  same_name_same_content hc (addDirsV1_faithful w hng hwf hbt req1 ps1 a st1 h1a h1) (addDirsV1_faithful w hng hwf hbt req2 ps2 b st2 h2a h2)
+  same_name_same_content hc (addDirsV1_faithful w hwf hbt req1 ps1 a st1 h1a h1) (addDirsV1_faithful w hwf hbt req2 ps2 b st2 h2a h2)
     n o1 o2 ob1 ob2 g1 g2 l1 l2 hob1 hob2 s1 s2
 
 /-- the members of corresponding structs correspond one for one, and their types are registered under common names -/
